@@ -47,7 +47,8 @@ def run_program(prog, chooser, line_budget):
         if prog["task_yields"]:
             em.sleep(0.01)
         if prog["failing_task"] and tid % 2:
-            raise KeyError(tid)
+            # the failing tasks of every other spawner end with a BaseException that is no Exception
+            raise (KeyboardInterrupt(tid) if (tid // 100) % 2 == 0 else KeyError(tid))
         return tid * 10
 
     def spawner(si, n):
@@ -115,7 +116,9 @@ def run_program(prog, chooser, line_budget):
                 v = r.get(timeout=0)
                 reply_ok = reply_ok and v == t * 10 and not (prog["failing_task"] and t % 2)
             except KeyError as e:
-                reply_ok = reply_ok and prog["failing_task"] and t % 2 == 1 and e.args == (t,)
+                reply_ok = reply_ok and prog["failing_task"] and t % 2 == 1 and (t // 100) % 2 == 1 and e.args == (t,)
+            except KeyboardInterrupt as e:
+                reply_ok = reply_ok and prog["failing_task"] and t % 2 == 1 and (t // 100) % 2 == 0 and e.args == (t,)
             except Exception:  # noqa
                 reply_ok = False
         else:
